@@ -1537,7 +1537,7 @@ class HttpHeaderFieldValueXXSSProtectionMode(FieldValueComponentStringEnum):
 @attr.s
 class HttpHeaderFieldValueXXSSProtection(FieldsSemicolonSeparated):
     state = attr.ib(
-        converter=HttpHeaderFieldValueXXSSProtectionState,
+        converter=HttpHeaderFieldValueXXSSProtectionState.convert,
         validator=attr.validators.instance_of(HttpHeaderFieldValueXXSSProtectionState),
     )
     mode = attr.ib(
